@@ -1012,7 +1012,9 @@ def r12_4(ctx):
             n += 1
             # (paths consistent in the constant flags they set and test: `return false` out of an
             # inlined pass followed by `if !all_done { return }` does not continue the loop)
-            skip = h in feasible_reach(b, ex, item_edge[1], removed_nodes=inner_rec) or item_edge[1] == h
+            # (when the block the `Some` edge leads to is itself the block that ends in the recursive call -
+            # the release shape, where no overflow check separates them - nothing can be skipped from there)
+            skip = item_edge[1] not in inner_rec and (h in feasible_reach(b, ex, item_edge[1], removed_nodes=inner_rec) or item_edge[1] == h)
             ctx.ob("%s:loop@%d:every-move-searched" % (fn.split("::")[-1], n), not skip, b.where(b.term_loc(item_edge[0])),
                    "every move taken from the list reaches the recursive search before the next one is taken%s" % (
                        "" if not skip else ": NOT so — some moves are skipped (`continue`), so the value is no longer the minimax value over the engine's own move generation"))
